@@ -278,6 +278,7 @@ def extra_obligations(mods, tier, seed):
                             prob = f"{type(ex).__name__}: {ex}"
                         if prob:
                             bad3.append({"style": style, "cols": cols, "text_length": tl, "loop": loop_flag, "stride_ms": stride, "problem": prob})
+    PROPERTY["bounded"] = [{"check": "host animation frames", "bound": f"{n3} host runs (styles x widths x text lengths x loop x tick strides)"}]
     out.append({"name": "C18/host/frames-are-row-confined-and-tick-never-raises", "status": "discharged" if not bad3 else "sat", "backend": "bounded-native", "bounded": True,
                 "where": f"{n3} host runs (4 styles x 5 widths x text lengths around the width x loop on/off x tick strides): every frame after animate() and each tick() has rows of exactly "
                          "`cols` cells, the other row is untouched, nothing raises", "time": round(time.time() - t2, 3), "replay": {"bad": bad3[:4]}, "replay_confirmed": bool(bad3)})
@@ -290,4 +291,5 @@ def extra_obligations(mods, tier, seed):
 def extra_evidence():
     d = dict(c17.extra_evidence())
     d["host_tick_extraction"] = _B.get("host_extraction")
+    d["bounded"] = PROPERTY.get("bounded", [])
     return d
